@@ -125,11 +125,11 @@ def _load_parameter(obj_dict: dict[str, Any]) -> Parameter:
 def _attach_parent_to_expr(expr: expressions.Expr | str | None, parent: Module | Class) -> None:
     if not isinstance(expr, expressions.Expr):
         return
-    for elem in expr:
-        if isinstance(elem, expressions.ExprName):
+    # Names at any depth must be attached, except the ones chained
+    # in an attribute expression (`b` and `c` in `a.b.c` resolve through `a`).
+    for elem in expr.iterate(flat=True):
+        if isinstance(elem, expressions.ExprName) and not isinstance(elem.parent, expressions.ExprName):
             elem.parent = parent
-        elif isinstance(elem, expressions.ExprAttribute) and isinstance(elem.first, expressions.ExprName):
-            elem.first.parent = parent
 
 
 def _attach_parent_to_exprs(obj: Class | Function | Attribute, parent: Module | Class) -> None:
@@ -141,6 +141,8 @@ def _attach_parent_to_exprs(obj: Class | Function | Attribute, parent: Module | 
             _attach_parent_to_expr(obj.docstring.value, parent)
         for decorator in obj.decorators:
             _attach_parent_to_expr(decorator.value, parent)
+        for base in obj.bases:
+            _attach_parent_to_expr(base, parent)
     elif isinstance(obj, Function):
         if obj.docstring:
             _attach_parent_to_expr(obj.docstring.value, parent)
@@ -154,6 +156,7 @@ def _attach_parent_to_exprs(obj: Class | Function | Attribute, parent: Module | 
         if obj.docstring:
             _attach_parent_to_expr(obj.docstring.value, parent)
         _attach_parent_to_expr(obj.value, parent)
+        _attach_parent_to_expr(obj.annotation, parent)
 
 
 def _load_module(obj_dict: dict[str, Any]) -> Module:
